@@ -201,6 +201,11 @@ func evalC01(c c01Case, o *Obs) error {
 			if pk.Format() != wantFmt {
 				return fmt.Errorf("%s: decoded public key has format %v", name, pk.Format())
 			}
+			// a decoded address is the caller's: changing it must not show in later decodes of the same string
+			pk.SetFormat((wantFmt + 1) % 3)
+			if d2, err := bchutil.DecodeAddress(r, p); err != nil || d2.String() != str || !bytes.Equal(d2.ScriptAddress(), wantScript) {
+				return fmt.Errorf("%s on %s: DecodeAddress(%q) after SetFormat on an earlier result of the same call returns %v (err %v)", name, nets[c.Net].Name, r, d2, err)
+			}
 		}
 	}
 	if !isSlpKind(c.Kind) && !a.IsForNet(p) {
